@@ -361,6 +361,10 @@ func c22Case(res *hx.Result, in c22Input) error {
 		res.Sample(map[string]any{"kind": "crash", "point": in.Point, "k": in.K, "result": class, "block_after_is_new": string(after.Block) == string(refNew)})
 
 	case "readcrash": // a reader dies k bytes into its restore write
+		if bio.Valid(init.Block) || !bio.CowValid(init) { // the earlier torn write changed nothing: no restore will happen
+			res.Count("readcrash.skipped_no_restore_needed")
+			return nil
+		}
 		res.Seen(fmt.Sprintf("readcrash|%x|%d", init.Block, in.K), true)
 		if code, err := runChild(env, childOp{Op: "get", ID: id, TearWrite: 1, K: in.K}); err != nil || code != 7 {
 			return fmt.Errorf("reader child: code %d err %v", code, err)
@@ -734,7 +738,7 @@ func runC22(cfg *hx.RunCfg) (*hx.Result, error) {
 	// a reader dies in its restore write
 	prev := sop.Handle{LogicalID: idB, PhysicalIDA: bio.IDFor(1, 0, 1, 1), Version: 77, IsDeleted: true}
 	for _, k := range sample(nS) {
-		t0 := 40*bio.S + 20 + r.Intn(45)
+		t0 := 40*bio.S + 30 + r.Intn(32) // inside the record, past the bytes old and new share
 		for _, pt := range []string{"restore", "block"} {
 			if err := run(with(func(in *c22Input) {
 				in.Kind, in.Point, in.K, in.Torn0, in.Prev, in.Tag = "crash", pt, k, t0, &prev, "after_earlier_torn_update_"+pt
